@@ -170,6 +170,11 @@ func checkC14(P *Prog, r *Result) {
 	// which rendering of a request is read (query vs body, by method and media type) is part of "the same
 	// record through every front end": C15's source-selection table
 	shareRule(P, r, checkC15, "C15/dispatch-table", nil, "C14/source-selection", 4)
+	// nothing about the front end of one call (its tag, its provider) survives in the pooled execution objects
+	// into the next call: C07's reinit rule on the execution and node contexts
+	shareRule(P, r, checkC07, "C07/reinit", func(o Obligation) bool {
+		return strings.Contains(o.Construct, "#zog/internals.ExecCtx.") || strings.Contains(o.Construct, "#zog/internals.SchemaCtx.")
+	}, "C14/no-front-end-state-carried", 8)
 }
 
 func checkC15(P *Prog, r *Result) {
